@@ -81,9 +81,43 @@
     - the semantic counterpart for the OS filesystem ("every key at/below the
       location keeps its node") is shown on the examples only; the general
       statement needs the no-symlink/no-".." side condition of D9.
-    - "Rollback keeps working for everything outside" is C01 (partial); here
-      only the examples [C04_removeall_root_then_rollback],
-      [C04_removeall_parent_then_rollback], [C04_rename_parent_rejected]. *)
+    - "Rollback keeps working for everything outside" is C01 (partial):
+      [C04_rollback_documented_partial] below, for histories of COVERED
+      operations (next to the examples [C04_removeall_root_then_rollback],
+      [C04_removeall_parent_then_rollback], [C04_rename_parent_rejected]).
+
+    (D)  [C04_rollback_documented_partial]: the documented layering with the
+         location INSIDE the base tree, [dcfg pa h = mkConfig (Some pa) [h]
+         (pa ++ h)] (base = HiddenFS([h], PrefixFS(pa)), backup =
+         PrefixFS(pa ++ h); [pa] an absolute cleaned prefix other than the
+         root, [h] the absolute cleaned view path of the location, not the
+         root): after ANY history of covered operations Rollback returns nil,
+         the base view [VpH pa h] - everything below [pa] except the location
+         and what lies below it - is as when the transaction began (root
+         metadata and directory timestamps aside), the backup view holds only
+         its root and nothing is tracked.  Operations on the ANCESTORS of the
+         location are covered: RemoveAll of a parent directory (it empties the
+         directory except for the location and then fails to remove the
+         directory itself: the operation returns an error, which a history may
+         contain), Rename of a parent directory (refused by HiddenFS), Remove,
+         Chmod, Chown, ... of it; so are operations on names at or below the
+         location (refused).  [covered] (Spec/Inv.v) demands: the operation is
+         one of Create, OpenFile+write, Mkdir, MkdirAll, Remove, RemoveAll,
+         Rename, Symlink, Chmod, Chown, Lchown, Chtimes, Stat, Lstat, Readlink,
+         Open+read, Open+Readdirnames; its names are resolved in the current
+         base view (absolute, cleaned, no symlink among the parents); the
+         mutating operations that follow a final symlink are not applied to a
+         symlink (D14); Rename has a source without entries below it in the
+         view; Remove/RemoveAll are not applied to the root; and the state an
+         operation ends in leaves no tracked path with another type (D13:
+         [kind_stable] in [good_run]).  No law is assumed: Proofs/LawsHidden*.v
+         prove the laws of Spec/Laws.v for both filesystems of this layering.
+         Non-vacuity: [C04_documented_example] (Proofs/DocumentedExample.v:
+         location /base/v/bk, a history with RemoveAll("/v"), Rename("/v",
+         "/w"), Mkdir("/v/bk/zz"), then Rollback - by the theorem and by
+         running the model).  The views are lexical (S4 / D9 apply): a symlink
+         of the base that points into the location is outside the statement
+         only in so far as [covered] asks for resolved names. *)
 From stdpp Require Import gmap.
 From BFS Require Import Layers.Call Layers.LayerSpec Layers.HiddenList.
 From BFS Require Import Backup.History.
@@ -433,3 +467,33 @@ Example C04_hypotheses_hold :
   real_path (cfg_base c4) p_bkx w4 = (MOk p_bkx, snd (real_path (cfg_base c4) p_bkx w4)).
 Proof. exact hypotheses_hold. Qed.
 Print Assumptions C04_hypotheses_hold.
+
+(* ------------------------------------------------------------------ *)
+(** * (D) Rollback for the documented layering, location inside the base tree *)
+
+From BFS Require Import Spec.CopySpecs Spec.ViewOsfs Spec.ViewHidden.
+From BFS Require Import Proofs.LawsHidden Proofs.DocumentedExample.
+
+Theorem C04_rollback_documented_partial :
+  forall pa h, prefix_ok pa -> hidden_ok h ->
+  forall B0, all_small B0 ->
+  forall w0 ops w,
+    initial (VpH pa h) (Vp (pk_h pa h)) clean clean (acc_h pa h) (acc_p (pk_h pa h)) B0 w0 ->
+    good_run (cfg_base (dcfg pa h)) (cfg_backup (dcfg pa h)) (VpH pa h) w0 ops w ->
+    exists w', b_rollback (cfg_base (dcfg pa h)) (cfg_backup (dcfg pa h)) w = (MOk tt, w') /\
+               store_eqv (VpH pa h w') B0 /\ (forall p, p <> s_root -> Vp (pk_h pa h) w' !! p = None) /\
+               w_infos w' = ∅.
+Proof. exact c01_documented. Qed.
+Print Assumptions C04_rollback_documented_partial.
+
+(** location /base/v/bk; Chmod("/f"), RemoveAll("/v") (ENOTEMPTY), Rename("/v","/w")
+    (refused), Create("/v/new"), Mkdir("/v/bk/zz") (refused), Remove("/l"); Rollback *)
+Example C04_documented_example :
+  let '(r, w') := b_rollback (cfg_base (dcfg dpa dh)) (cfg_backup (dcfg dpa dh)) dw in
+  r = MOk tt /\ w_infos w' = ∅ /\
+  ConcreteExample.region (comps dpa) w' = ConcreteExample.region (comps dpa) dw0 /\
+  ConcreteExample.view_erased (VpH dpa dh w') = ConcreteExample.view_erased dB0 /\
+  map fst (map_to_list (Vp (pk_h dpa dh) w')) = [s_root] /\
+  ConcreteExample.region (comps dpa) dw <> ConcreteExample.region (comps dpa) dw0.
+Proof. exact c01_documented_by_computation. Qed.
+Print Assumptions C04_documented_example.
